@@ -540,7 +540,24 @@ class ExtraFilesMachine(ManifestMachine):
         return productmd.extra_files.ExtraFiles()
 
     def call_add(self, obj, op):
-        obj.add(op["variant"], op["arch"], op["path"], dec(op["size"]), copy.deepcopy(op["checksums"]))
+        ck = copy.deepcopy(op["checksums"])
+        if "ck_order" in op and isinstance(ck, dict) and len(ck) > 1:
+            # the ORDER in which the caller put the algorithms into the dict (ops are stored with sorted keys)
+            import random
+            keys = sorted(ck)
+            random.Random(op["ck_order"]).shuffle(keys)
+            ck = dict((k, ck[k]) for k in keys)
+        obj.add(op["variant"], op["arch"], op["path"], dec(op["size"]), ck)
+
+    def dumps_for_cmp(self, s, op):
+        # every serialisation route of the object: the manifest itself and the per-tree documents
+        parts = [s.obj.dumps()]
+        for variant in sorted(s.model["payload"]):
+            for arch in sorted(s.model["payload"][variant]):
+                out = io.StringIO()
+                s.obj.dump_for_tree(out, variant, arch, "")
+                parts.append(out.getvalue())
+        return "\n".join(parts)
 
     def add_key(self, op, payload):
         return [len(op["checksums"]) if isinstance(op["checksums"], dict) else -1, len(payload), op["variant"] in payload,
